@@ -28,6 +28,8 @@ import (
 	"github.com/libp2p/go-libp2p/core/peer"
 	"github.com/libp2p/go-libp2p/core/protocol"
 	"github.com/libp2p/go-libp2p/internal/verifh"
+	bhost "github.com/libp2p/go-libp2p/p2p/host/basic"
+	blankhost "github.com/libp2p/go-libp2p/p2p/host/blank"
 	rcmgr "github.com/libp2p/go-libp2p/p2p/host/resource-manager"
 	"github.com/libp2p/go-libp2p/p2p/muxer/yamux"
 	mocknet "github.com/libp2p/go-libp2p/p2p/net/mock"
@@ -62,7 +64,11 @@ type c07Inv struct {
 }
 
 type c07World struct {
-	kind     int64 // 0 mocknet, 1 tcp+noise+yamux, 2 the same through a circuit-v2 relay (limited connection)
+	// 0 mocknet, 1 tcp+noise+yamux, 2 the same through a circuit-v2 relay (limited connection),
+	// 3 mocknet with a BlankHost listener, 4 like 1 with a short negotiation timeout
+	kind     int64
+	negto    time.Duration // the hosts' negotiation timeout when it is short enough to outwait
+	blankL   bool
 	hasScope bool
 	limited  bool
 	d, l     host.Host
@@ -122,7 +128,7 @@ func c07NewWorld(t *testing.T, kind int64, limD, limL []int64) *c07World {
 	ctx, cancel := context.WithTimeout(context.Background(), 30*time.Second)
 	defer cancel()
 	switch kind {
-	case 0:
+	case 0, 3:
 		mn := mocknet.New()
 		d, err := mn.GenPeer()
 		if err != nil {
@@ -136,6 +142,12 @@ func c07NewWorld(t *testing.T, kind int64, limD, limL []int64) *c07World {
 			t.Fatal(err)
 		}
 		w.d, w.l = d, l
+		if kind == 3 {
+			// the thinnest host on the listener's network (it takes over the
+			// network's stream handler); NullResourceManager as by default
+			w.blankL = true
+			w.l = blankhost.NewBlankHost(l.Network())
+		}
 		w.closers = append(w.closers, func() { mn.Close() })
 	default:
 		var err error
@@ -163,7 +175,7 @@ func c07NewWorld(t *testing.T, kind int64, limD, limL []int64) *c07World {
 			} else {
 				opts = append(opts, libp2p.NoListenAddrs, libp2p.EnableRelay())
 			}
-			if kind == 1 {
+			if kind != 2 {
 				opts = append(opts, libp2p.DisableRelay())
 			}
 			h, err := libp2p.New(opts...)
@@ -172,7 +184,14 @@ func c07NewWorld(t *testing.T, kind int64, limD, limL []int64) *c07World {
 			}
 			return h
 		}
-		if kind == 1 {
+		if kind == 1 || kind == 4 {
+			if kind == 4 {
+				// hosts read the package default when they are built
+				old := bhost.DefaultNegotiationTimeout
+				w.negto = 300 * time.Millisecond
+				bhost.DefaultNegotiationTimeout = w.negto
+				defer func() { bhost.DefaultNegotiationTimeout = old }()
+			}
 			w.d, w.l = mk(w.rmD, true), mk(w.rmL, true)
 			w.closers = append(w.closers, func() { w.d.Close(); w.l.Close() })
 		} else {
@@ -213,6 +232,15 @@ func c07NewWorld(t *testing.T, kind int64, limD, limL []int64) *c07World {
 	if cs := w.d.Network().ConnsToPeer(w.l.ID()); len(cs) != 1 || cs[0].Stat().Limited != w.limited {
 		t.Fatalf("connection to the listener: %d conns, limited flag wrong", len(cs))
 	}
+	w.d.Peerstore().AddAddrs(w.l.ID(), laddrs, time.Hour)
+	w.l.Peerstore().AddAddrs(w.d.ID(), w.d.Addrs(), time.Hour)
+	w.identifyWait()
+	w.quiesce(0, 0)
+	return w
+}
+
+// identifyWait: both sides' identify on the (single) connection has finished
+func (w *c07World) identifyWait() {
 	type idw interface {
 		IDService() identify.IDService
 	}
@@ -225,13 +253,13 @@ func c07NewWorld(t *testing.T, kind int64, limD, limL []int64) *c07World {
 	for time.Now().Before(deadline) {
 		cs := w.l.Network().ConnsToPeer(w.d.ID())
 		if len(cs) == 1 {
-			<-w.l.(idw).IDService().IdentifyWait(cs[0])
+			if li, ok := w.l.(idw); ok {
+				<-li.IDService().IdentifyWait(cs[0])
+			}
 			break
 		}
 		time.Sleep(time.Millisecond)
 	}
-	w.quiesce(0, 0)
-	return w
 }
 
 func (w *c07World) close() {
